@@ -77,10 +77,46 @@ func Rendezvous(site string, n int) {
 	rvSite.Store(&site)
 }
 
+// trigger: the n-th goroutine reaching a site runs a callback (e.g. cancels the
+// instance's context) and then optionally pauses, so that the rest of the
+// instance reacts to the callback's effect before this goroutine goes on.
+type trigger struct {
+	site  string
+	nth   int64
+	hits  atomic.Int64
+	f     func()
+	pause time.Duration
+	fired atomic.Bool
+}
+
+var trig atomic.Pointer[trigger]
+
+// Trigger arms f at the nth hit of site (nth >= 1); pause is slept by the
+// hitting goroutine after f returned. Trigger("", ...) disarms. Returns a
+// function reporting whether the trigger fired. Not used in race mode.
+func Trigger(site string, nth int, pause time.Duration, f func()) func() bool {
+	if site == "" {
+		trig.Store(nil)
+		return func() bool { return false }
+	}
+	t := &trigger{site: site, nth: int64(nth), f: f, pause: pause}
+	trig.Store(t)
+	return func() bool { return t.fired.Load() }
+}
+
 func handle(site string) {
 	if !RaceMode {
 		if c := counts[site]; c != nil {
 			c.Add(1)
+		}
+		if t := trig.Load(); t != nil && t.site == site {
+			if t.hits.Add(1) == t.nth {
+				t.fired.Store(true)
+				t.f()
+				if t.pause > 0 {
+					time.Sleep(t.pause)
+				}
+			}
 		}
 		if s := rvSite.Load(); s != nil && *s == site {
 			n := rvN.Load()
